@@ -216,7 +216,7 @@ def to_item(rec):
                     tr[i] = to
         dfa.append({'en': bool(st['end']), 'un': bool(st['unr']), 'rec': st['rec'], 'tr': tr})
     return {'id': rec['id'], 'K': K, 'segs': [list(s) for s in segs], 'calls': calls, 'dfa': dfa, 'slice': rec['slice'],
-            'size_pred': rec['size_pred'], 'size_used': rec['size_used'], 'size_api': rec.get('size_api', -2)}
+            'size_pred': rec['size_pred'], 'size_used': rec['size_used'], 'size_api': rec.get('size_api', -2), 'giv': []}
 
 
 def tla_sets(items):
